@@ -30,7 +30,8 @@ Mirrored as written:
 The reader is written parser style: state = (absolute offset, `data[offset:]`).
 
 Outside the fragment (reported as `PyErr.other`, never produced by message.py's own headers): a
-variant whose inferred / received signature is not exactly one basic type code.
+variant whose inferred / received signature is not exactly one basic type code (a first character
+that is no type code at all is the KeyError of `pad[vsig[0]]`).
 Core Lean only.
 -/
 namespace Txdbus.Msg
@@ -298,17 +299,19 @@ def unmarshalVariant (A : Char → Nat) (le : Bool) (r : Rd) (fds : Option (List
   | .ok (nsig, vsig) =>
     match vsig with
     | [] => .error .index                       -- vsig[0]
-    | [ch] =>
-      match Basic.ofCode? ch with
-      | none => .error .other                   -- outside the fragment (a container, a variant, an unknown code)
-      | some c =>
+    | ch :: more =>
+      if A ch = 0 then .error .key              -- pad[vsig[0]]: not a type code of dbus_types
+      else
+      match more, Basic.ofCode? ch with
+      | _ :: _, _ => .error .other              -- outside the fragment (more than one type code)
+      | [], none => .error .other               -- outside the fragment (a container or a variant)
+      | [], some c =>
         let r1 := (r.adv nsig).skipPad A ch       -- offset += len(pad[vsig[0]](offset))
         -- unmarshal(vsig, data, offset, …): offset += len(pad[tcode](offset)) once more, then the unmarshaller
         let r2 := r1.skipPad A ch
         match unmarshalBasic le c r2 fds with
         | .error x => .error x
         | .ok (nvar, v) => .ok (r2.off + nvar - r.off, v)
-    | _ => .error .other                        -- outside the fragment
 
 /-- `unmarshal_struct('(yv)', …)` = `unmarshal('yv', data, offset, …)`: `(nbytes, [code, value])`. -/
 def unmarshalStructYV (A : Char → Nat) (le : Bool) (r : Rd) (fds : Option (List PyVal)) :
